@@ -12,6 +12,7 @@ import (
 	"verifharness/props/c09"
 	"verifharness/props/c10"
 	"verifharness/props/c11"
+	"verifharness/props/c12"
 	"verifharness/props/c13"
 	"verifharness/props/c18"
 )
@@ -22,6 +23,7 @@ var checks = map[string]func(*core.Ctx) int{
 	"C09": c09.Run,
 	"C10": c10.Run,
 	"C11": c11.Run,
+	"C12": c12.Run,
 	"C13": c13.Run,
 	"C18": c18.Run,
 }
